@@ -727,5 +727,26 @@ def _admissibility_total(db, rule):
                 rule.ok(inst, 'dominated by has_value() on the same object', f.loc(n))
             else:
                 rule.violation(inst, f.loc(n), '`%s` is on the path of the admissibility test without a has_value() test of the same object (an assert is compiled out): for a table that mixes a base set with a term the rewritten typification has no type and std::bad_optional_access leaves IsEquatable / Equate / the synthesis constructor' % (n.get('txt') or '')[:80])
+    # the partial accessors of a typification: B() of something that is not a collection dereferences a null pointer (Structure.hpp)
+    PARTIAL = {'B': 'IsCollection', 'T': 'IsTuple', 'E': 'IsElement', 'Component': 'IsTuple', 'TupleArity': 'IsTuple'}
+    squeeze = lambda t: (t or '').replace(' ', '').replace('\n', '')
+    for f in sorted(seen.values(), key=lambda x: x.name):
+        for n in f.calls():
+            cs = n.get('cs') or ''
+            if not cs.startswith(('ccl::rslang::Typification::', 'ccl::rslang::Structured::')) or cs.split('::')[-1] not in PARTIAL or 'obj' not in n or n['k'] != 'CXXMemberCallExpr':
+                continue
+            need = PARTIAL[cs.split('::')[-1]]
+            obj = squeeze(f.stmts[n['obj']].get('txt'))
+            n_sites += 1
+            pos = f.position_of(n)
+            atoms = guard_atoms(f, pos) if pos else []
+            inst = '%s:%s.%s()' % (f.name.split('::')[-1], obj[:50], cs.split('::')[-1])
+            guarded = any(a[2] and a[3]['k'] == 'CXXMemberCallExpr' and (a[3].get('cs') or '') in ('ccl::rslang::Typification::' + need, 'ccl::rslang::Structured::' + need) and 'obj' in a[3]
+                          and squeeze(f.stmts[a[3]['obj']].get('txt')) == obj for a in atoms)
+            if guarded:
+                rule.ok(inst, 'dominated by %s() on the same typification' % need, f.loc(n))
+            else:
+                rule.violation(inst, f.loc(n), '`%s` is on the path of the admissibility test without a dominating %s() test of the same typification: for a table whose replacement has an element or tuple '
+                               'typification (X1 -> D3 := debool(X2)) %s() dereferences a null pointer and IsEquatable / Equate / the synthesis constructor crash instead of refusing' % ((n.get('txt') or '')[:80], need, cs.split('::')[-1]))
     if not n_sites:
         rule.ok('no-optional-access', 'the admissibility test reads no optional by value()', '%s:%d' % (ev[0].file, ev[0].line), nontrivial=False)
